@@ -344,7 +344,7 @@ fn main() {
     let rep_years: Vec<i32> = if run.quick() {
         vec![1678, 1700, 1900, 1969, 1970, 1972, 2000, 2024, 2100, 2261]
     } else {
-        let mut v: Vec<i32> = (1678..=2261).step_by(16).collect();
+        let mut v: Vec<i32> = (1678..=2261).step_by(4).collect();
         v.extend([1700, 1800, 1900, 1968, 1969, 1970, 1971, 1972, 2000, 2023, 2024, 2100, 2200, 2260, 2261]);
         v.sort();
         v.dedup();
